@@ -1,4 +1,177 @@
-From UV Require Import Base.Common Model.Preset Model.ParrotSpec Gen.Parrots.
+(* C03 - predefined parrots send exactly the ClientHello their spec describes.
+
+   STATE: the unchanged code satisfies the property on everything checked; no _refuted theorem.
+
+   What is PROVED here (for every spec, every Config, every randomness, every swap list):
+     C03_shuffle / C03_shuffle_total     the Chrome shuffle is a permutation that keeps GREASE, padding
+                                         and pre_shared_key where they are, and cannot fail
+     C03_generic_partial                 ApplyPreset's result - header fields and the extension VALUES
+                                         encoded by the reference layouts (ExtSpec.ext_body), which by
+                                         C03_wire_is_read (C08's layout theorem) are the bytes each
+                                         extension's Read() emits - satisfies the property oracle
+                                         ast_matches_specb against the spec it was built from
+     C03_legacy_version, C03_compression_fixed
+     C03_table_wf / C03_parrots          the regenerated table Gen/Parrots.v is well-formed (computation
+                                         over the finite regenerated domain) and the generic theorems
+                                         apply to every shipped parrot under every shuffle
+   What is PARTIAL ("_partial"): the composition with the byte-level marshaller (Model/Marshal.v, C05) and
+   the strict parser - "parse_hello (build ..) = ast_of .." - is not proved; it is evaluated on every CBuild
+   correspondence case (real bytes = model bytes; strict parse of them = wire_of of the model's values; oracle
+   accepts), and C03_ex_bytes shows the whole chain on one shipped parrot inside Coq. The shuffle-aware
+   rearrangement used by the oracle for shuffling ids (ParrotSpec.arrange) is executable specification
+   applied to real output (CHello cases), not related to C03_shuffle by a theorem. *)
+From Coq Require Import Permutation.
+From UV Require Import Base.Common Model.Wire.
+From UV Require Model.Grease Model.Marshal.
+From UV Require Import Model.Ext Model.ExtSpec Model.Shuffle Model.Preset Model.ParrotSpec.
+From UV Require Import Proofs.PresetP.
+From UV Require Gen.Parrots.
+
+(* ---- the Chrome shuffle, for EVERY list of swap calls ---- *)
+Theorem C03_shuffle : forall (A : Type) (fixed : A -> bool) (swaps : list (nat * nat)) (l l' : list A),
+  shuffle fixed swaps l = Ok l' ->
+  Permutation l l' /\
+  (forall k x, nth_error l k = Some x -> fixed x = true -> nth_error l' k = Some x) /\
+  (forall k y, nth_error l' k = Some y -> fixed y = true -> nth_error l k = Some y).
+Proof. intros A fixed swaps l l' H. destruct (shuffle_ok fixed swaps l l' H) as [P [K1 K2]]. auto. Qed.
+Print Assumptions C03_shuffle.
+
+(* rand.Shuffle(len(exts), swap) only calls swap with indices inside the slice: no panic, always a result *)
+Theorem C03_shuffle_total : forall (A : Type) (fixed : A -> bool) (swaps : list (nat * nat)) (l : list A),
+  Forall (fun ij => (fst ij < length l)%nat /\ (snd ij < length l)%nat) swaps ->
+  exists l', shuffle fixed swaps l = Ok l'.
+Proof. intros. apply shuffle_total. assumption. Qed.
+Print Assumptions C03_shuffle_total.
+
+(* ---- ApplyPreset against the oracle, for EVERY spec ---- *)
+
+(* wire_of is what the extensions' Read() methods emit (C08 layout theorem): type ‖ u16 length ‖ body, or nothing *)
+Theorem C03_wire_is_read : forall e, wf_ext e = true ->
+  ext_read e (ext_len e) =
+    Ok (match wire_pair e with Some (id, b) => enc_u16 id ++ enc_u16lp b | None => [] end).
+Proof. exact wire_pair_read. Qed.
+Print Assumptions C03_wire_is_read.
+
+(* Whatever the spec, the Config, the randomness (GREASE seed, random, session id, generated keys, ECH
+   draws) and the padding decision taken later by the marshaller (pl, pw): if ApplyPreset succeeds and
+   leaves extension values within wire limits, the hello made of its header fields and of the extensions
+   as their codecs encode them carries legacy_version min(spec maximum, TLS 1.2), the spec's suites with
+   GREASE slots, compression [0], and the spec's extension sequence with every body equal to the spec's
+   rendering up to the per-connection holes. *)
+Theorem C03_generic_partial : forall sp c fr h es name pl pw,
+  apply_preset sp c fr = Ok (h, es) ->
+  forallb wf_ext es = true ->
+  sp_comp sp = [0] ->
+  ast_matches_specb (ast_of h (map (set_pad pl pw) es))
+                    {| p_name := name; p_spec := sp; p_shuffles := false |} c = true.
+Proof. exact apply_preset_matches. Qed.
+Print Assumptions C03_generic_partial.
+
+Theorem C03_legacy_version : forall sp mn mx v,
+  set_tls_vers sp = Ok (mn, mx) -> hello_vers mn mx = Ok v -> v = N.min (spec_max sp) 771.
+Proof. exact legacy_version. Qed.
+Print Assumptions C03_legacy_version.
+
+(* ApplyPreset never reads p.CompressionMethods: the hello always carries [0]. (Every shipped parrot declares
+   [0] - part of C03_table_wf - so C03 holds for them; a custom spec with other methods is C06's business.) *)
+Theorem C03_compression_fixed : forall sp c fr h es, apply_preset sp c fr = Ok (h, es) -> Marshal.h_comp h = [0].
+Proof. exact compression_not_copied. Qed.
+Print Assumptions C03_compression_fixed.
+
+(* ---- the regenerated table ---- *)
 Theorem C03_table_wf : forallb wf_parrot Parrots.all = true.
 Proof. vm_compute. reflexivity. Qed.
 Print Assumptions C03_table_wf.
+
+Definition with_exts (sp : spec) (es : list sext) : spec :=
+  {| sp_min := sp_min sp; sp_max := sp_max sp; sp_suites := sp_suites sp; sp_comp := sp_comp sp; sp_exts := es |}.
+
+(* Every shipped parrot, every rearrangement the shuffle can produce from its table entry (for the ids
+   that do not shuffle: swaps = []), every Config and randomness: the rearrangement is a permutation
+   with GREASE/padding/pre_shared_key in their slots, and the hello matches the spec so rearranged. *)
+Theorem C03_parrots : forall p, In p Parrots.all ->
+  forall swaps exts', shuffle fixedb swaps (sp_exts (p_spec p)) = Ok exts' ->
+  (Permutation (sp_exts (p_spec p)) exts' /\
+   (forall k x, nth_error (sp_exts (p_spec p)) k = Some x -> fixedb x = true -> nth_error exts' k = Some x) /\
+   (forall k y, nth_error exts' k = Some y -> fixedb y = true -> nth_error (sp_exts (p_spec p)) k = Some y)) /\
+  forall c fr h es pl pw,
+    apply_preset (with_exts (p_spec p) exts') c fr = Ok (h, es) ->
+    forallb wf_ext es = true ->
+    ast_matches_specb (ast_of h (map (set_pad pl pw) es))
+                      {| p_name := p_name p; p_spec := with_exts (p_spec p) exts'; p_shuffles := false |} c = true.
+Proof.
+  intros p Hin swaps exts' Hs. split; [exact (C03_shuffle _ _ _ _ _ Hs)|].
+  intros c fr h es pl pw Ha Hw. apply (C03_generic_partial _ c fr); [exact Ha|exact Hw|].
+  pose proof C03_table_wf as T. rewrite forallb_forall in T. specialize (T p Hin).
+  unfold wf_parrot, wf_spec in T. rewrite !andb_true_iff in T.
+  repeat match goal with H : _ /\ _ |- _ => destruct H end.
+  match goal with H : bytes_eqb (sp_comp _) [0] = true |- _ => apply bytes_eqb_eq in H; exact H end.
+Qed.
+Print Assumptions C03_parrots.
+
+(* ---- the hypotheses are satisfiable; concrete instances ---- *)
+Definition ex_cfg : cfg := {| c_sni := [97; 46; 105; 111]; c_omit_psk := true |}.
+Definition ex_ech : ech_draw :=
+  {| ed_cfg_idx := 0; ed_cfg_byte := 7; ed_suite_idx := 1; ed_enc := repeat 9 32;
+     ed_plen_idx := 2; ed_payload := repeat 5 208 |}.
+Definition ex_fresh : fresh :=
+  {| f_random := repeat 1 32; f_grease := [16; 0; 32; 0; 48; 0; 48; 0; 64; 0]; f_sid := repeat 2 32;
+     f_keys := [repeat 3 1216; repeat 4 32]; f_ech := [ex_ech] |}.
+
+(* a shipped shuffling parrot (Chrome_133: two GREASE extensions, GREASE ECH, ML-KEM + X25519 shares): ApplyPreset succeeds
+   within wire limits, i.e. the premises of C03_generic_partial / C03_parrots hold *)
+Example C03_ex_premises :
+  match apply_preset (p_spec Parrots.p_Chrome_133) ex_cfg ex_fresh with
+  | Ok (h, es) => forallb wf_ext es && bytes_eqb (sp_comp (p_spec Parrots.p_Chrome_133)) [0]
+  | _ => false
+  end = true.
+Proof. vm_compute. reflexivity. Qed.
+
+(* the whole chain on that parrot inside Coq: build (ApplyPreset + marshal + Boring padding) gives bytes which
+   the strict parser reads back and which the (shuffle-aware) oracle accepts *)
+Example C03_ex_bytes :
+  match build (p_spec Parrots.p_Chrome_133) ex_cfg ex_fresh with
+  | Ok raw => match parse_hello raw with
+              | Some a => ast_matches_specb a Parrots.p_Chrome_133 ex_cfg
+                          && list_eqb (fun x y => (fst x =? fst y) && bytes_eqb (snd x) (snd y)) (a_exts a)
+                               (match apply_preset (p_spec Parrots.p_Chrome_133) ex_cfg ex_fresh with
+                                | Ok (_, es) => wire_of es | _ => [] end)
+              | None => false
+              end
+  | _ => false
+  end = true.
+Proof. vm_compute. reflexivity. Qed.
+
+(* the oracle is not vacuous: the same bytes are refused for another parrot, and with one extension body changed *)
+Example C03_ex_oracle_rejects :
+  match build (p_spec Parrots.p_Chrome_133) ex_cfg ex_fresh with
+  | Ok raw => match parse_hello raw with
+              | Some a =>
+                  negb (ast_matches_specb a Parrots.p_Chrome_131 ex_cfg)
+                  && negb (ast_matches_specb
+                             {| a_vers := a_vers a; a_random := a_random a; a_sid := a_sid a; a_suites := a_suites a;
+                                a_comp := a_comp a;
+                                a_exts := map (fun w => if fst w =? ID_ALPN then (fst w, [0; 3; 2; 104; 50]) else w) (a_exts a) |}
+                             Parrots.p_Chrome_133 ex_cfg)
+                  && negb (ast_matches_specb
+                             {| a_vers := a_vers a; a_random := a_random a; a_sid := a_sid a; a_suites := a_suites a;
+                                a_comp := a_comp a; a_exts := rev (a_exts a) |}
+                             Parrots.p_Chrome_133 ex_cfg)
+              | None => false
+              end
+  | _ => false
+  end = true.
+Proof. vm_compute. reflexivity. Qed.
+
+(* a shuffle that moves something and one blocked by a fixed entry *)
+Example C03_ex_shuffle :
+  shuffle (fun x : N => x =? 0) [(3, 1); (2, 0); (1, 2)]%nat [0; 5; 6; 7] = Ok [0; 6; 7; 5].
+Proof. vm_compute. reflexivity. Qed.
+
+(* a third GREASE extension is refused; an unsupported key-share group is refused *)
+Example C03_ex_errors :
+  is_ok (apply_preset {| sp_min := 771; sp_max := 772; sp_suites := [4865]; sp_comp := [0];
+                         sp_exts := [SExt (EGREASE 0 []); SExt (EGREASE 0 []); SExt (EGREASE 0 [])] |} ex_cfg ex_fresh) = false
+  /\ is_ok (apply_preset {| sp_min := 771; sp_max := 772; sp_suites := [4865]; sp_comp := [0];
+                            sp_exts := [SExt (EKeyShare [(30, [])])] |} ex_cfg ex_fresh) = false.
+Proof. split; vm_compute; reflexivity. Qed.
